@@ -97,7 +97,7 @@ fn main() {
             let mut dead = 0;
             for i in start..start + runs {
                 progress(&progress_path, &format!("{}", i));
-                let s = hc_hostile::run_hostile(&mut tr, i, mix(seed ^ 0x77, i));
+                let s = hc_hostile::run_hostile(&mut tr, i, mix(seed ^ 0x77, i), m.contains_key("steps"));
                 tr.flush();
                 inj += s.injected;
                 dead += s.dead as u64;
